@@ -255,9 +255,11 @@ func decode(cm map[string]any) (*definition, error) {
 		TagName:     "",
 		DecodeHook:  stringKeysHook,
 	})
-	err := md.Decode(cm)
+	if err := md.Decode(cm); err != nil {
+		return c, err
+	}
 
-	return c, err
+	return c, c.assertNoNullElements()
 }
 
 // stringKeysHook rejects a nested mapping with a non-string key (1:, true:,
